@@ -54,6 +54,9 @@ func runC06(r *fw.Run, p *fw.Program) {
 	c06Assert(r, p, reach)
 	c06ErrVal(r, p, roots)
 	c06Table(r, p, reach)
+	c06Idx(r, p, reach)
+	c06Force(r, p)
+	c06Param(r, p, reach)
 	c06Sym(r, p)
 	c06OutType(r, p)
 }
